@@ -1059,8 +1059,52 @@ class NP:
             return SymArray(out, "f8")
         return s_ite(cond, a, b)
 
+    def isclose(self, a, b, rtol=1e-05, atol=1e-08, equal_nan=False):
+        """|a - b| <= atol + rtol * |b| element-wise (numpy's asymmetric definition)."""
+        rt, at = concrete(rtol), concrete(atol)
+
+        def one(x, y):
+            x, y = _chk(x), _chk(y)
+            if getattr(x, "__sx_nan__", False) or getattr(y, "__sx_nan__", False):
+                return False
+            if isinstance(x, float) and (math.isinf(x) or math.isnan(x)) or isinstance(y, float) and (math.isinf(y) or math.isnan(y)):
+                return isinstance(x, float) and isinstance(y, float) and x == y
+            return _cmp(abs(x - y), at + rt * abs(y), "le")
+        return self._ew2(a, b, one) if not (_is_scalar(a) and _is_scalar(b)) else one(a, b)
+
+    def allclose(self, a, b, rtol=1e-05, atol=1e-08, equal_nan=False):
+        r = self.isclose(a, b, rtol=rtol, atol=atol)
+        return r.all() if isinstance(r, SymArray) else r
+
+    def array_equal(self, a, b):
+        a, b = asarray(a), asarray(b)
+        if getattr(a, "shape", ()) != getattr(b, "shape", ()):
+            return False
+        r = (a == b)
+        return r.all() if isinstance(r, SymArray) else r
+
+    def count_nonzero(self, a, axis=None):
+        a = asarray(a)
+        n = 0
+        for v in a._flat():
+            if isinstance(v, (bool, SymBool)):
+                n += 1 if bool(v) else 0            # symbolic: splits the path
+            else:
+                n += 1 if bool(_cmp(v, 0, "ne")) else 0
+        return n
+
+    def nonzero(self, a):
+        a = asarray(a)
+        return (SymArray([Q(j) for j, v in enumerate(a.d) if bool(v if isinstance(v, (bool, SymBool)) else _cmp(v, 0, "ne"))], "i8"),)
+
+    def flatnonzero(self, a):
+        return self.nonzero(a)[0]
+
+    def argmax(self, a):
+        raise Unsupported("np.argmax on symbolic values")
+
     def isnan(self, x):
-        return asarray(x)._map(lambda v: False, "bool") if not _is_scalar(x) else False
+        return asarray(x)._map(lambda v: bool(getattr(v, "__sx_nan__", False)), "bool") if not _is_scalar(x) else bool(getattr(x, "__sx_nan__", False))
 
     def isfinite(self, x):
         return asarray(x)._map(lambda v: True, "bool") if not _is_scalar(x) else True
@@ -1088,8 +1132,17 @@ class NP:
             out[i] = (hs * hs * f.d[i + 1] + (hd * hd - hs * hs) * f.d[i] - hd * hd * f.d[i - 1]) / (hs * hd * (hd + hs))
         return SymArray(out, "f8")
 
-    def vectorize(self, pyfunc, otypes=None):
-        def call(*args):
+    def vectorize(self, pyfunc, otypes=None, excluded=None, signature=None, **_kw):
+        def call(*args, **kwargs):
+            if kwargs:
+                # keyword arguments are vectorised like positional ones: bind them into the function for this call
+                names = list(kwargs)
+                vals = [kwargs[k] for k in names]
+                npos = len(args)
+
+                def bound(*a):
+                    return pyfunc(*a[:npos], **dict(zip(names, a[npos:])))
+                return self.vectorize(bound, otypes=otypes)(*args, *vals)
             arrs = [a for a in args if isinstance(a, SymArray)]
             if not arrs:
                 return pyfunc(*args)
